@@ -211,18 +211,24 @@ def parseBlockInfo (data : Bytes) (blockNumber : Nat) : M (Option BlockInfo) := 
 
 /-! ### DumpBlockRange -/
 
+/-- Go: `data[i*PS : i*PS+PS]` inside a loop over `i`: the loops of this area carry `rest = data[i*PS:]`
+along (a cursor), so that a step costs O(PS); `takeM rest n` is the slice `rest[0:n]` with its bounds
+check (`Proofs/Block.lean: takeM_eq_slice` ties it to the index form). -/
+def takeM (rest : Bytes) (n : Nat) : M Bytes :=
+  if (rest.take n).length < n then throw .slice else pure (rest.take n)
+
 /-- `for i := 0; i < len(data)/PageSize; i++ { block := data[i*PS : i*PS+PS]; ParseBlockInfo(block, uint32(startBlock+i)) }`,
-`n` iterations left, next index `i` -/
-def dumpBlocksLoop (data : Bytes) (startBlock : Int) : Nat → Nat → M (List BlockInfo)
-  | 0, _ => pure []
-  | n+1, i => do
-    let block ← slice data (i * 8192) (i * 8192 + 8192)
+`n` iterations left, next index `i`, `rest = data[i*PS:]` -/
+def dumpBlocksLoop (startBlock : Int) : Nat → Nat → Bytes → M (List BlockInfo)
+  | 0, _, _ => pure []
+  | n+1, i, rest => do
+    let block ← takeM rest 8192
     let info ← parseBlockInfo block (ofSigned 32 (startBlock + i))
-    let rest ← dumpBlocksLoop data startBlock n (i + 1)
-    pure (match info with | some x => x :: rest | none => rest)
+    let more ← dumpBlocksLoop startBlock n (i + 1) (rest.drop 8192)
+    pure (match info with | some x => x :: more | none => more)
 
 def dumpBlocks (data : Bytes) (startBlock : Int) : M (List BlockInfo) :=
-  dumpBlocksLoop data startBlock (data.length / 8192) 0
+  dumpBlocksLoop startBlock (data.length / 8192) 0 data
 
 def dumpBlockRange (file : Option Bytes) (r : Option BlockRange) : M (R (List BlockInfo)) := do
   match ← readBlockRange file r with
@@ -288,15 +294,15 @@ def dumpBinaryBlock {α} (hexDump : Bytes → α) (file : Option Bytes) (blockNu
   | .error e => return .error e
   | .ok data => return .ok ⟨ofSigned 32 blockNum, wrap64 (blockNum * 8192), hexDump data, data.length⟩
 
-def dumpBinaryLoop {α} (hexDump : Bytes → α) (data : Bytes) (startBlock : Int) : Nat → Nat → M (List (BinaryDump α))
-  | 0, _ => pure []
-  | n+1, i => do
-    let block ← slice data (i * 8192) (i * 8192 + 8192)
-    let rest ← dumpBinaryLoop hexDump data startBlock n (i + 1)
-    pure (⟨ofSigned 32 (startBlock + i), wrap64 ((startBlock + i) * 8192), hexDump block, 8192⟩ :: rest)
+def dumpBinaryLoop {α} (hexDump : Bytes → α) (startBlock : Int) : Nat → Nat → Bytes → M (List (BinaryDump α))
+  | 0, _, _ => pure []
+  | n+1, i, rest => do
+    let block ← takeM rest 8192
+    let more ← dumpBinaryLoop hexDump startBlock n (i + 1) (rest.drop 8192)
+    pure (⟨ofSigned 32 (startBlock + i), wrap64 ((startBlock + i) * 8192), hexDump block, 8192⟩ :: more)
 
 def dumpBinaryBlocks {α} (hexDump : Bytes → α) (data : Bytes) (startBlock : Int) : M (List (BinaryDump α)) :=
-  dumpBinaryLoop hexDump data startBlock (data.length / 8192) 0
+  dumpBinaryLoop hexDump startBlock (data.length / 8192) 0 data
 
 def dumpBinaryRange {α} (hexDump : Bytes → α) (file : Option Bytes) (r : Option BlockRange) :
     M (R (List (BinaryDump α))) := do
